@@ -176,22 +176,27 @@ class Connection(object):
         if self._closed and not _anyway:
             return
         self._closed = True
-        self._channel.close()
+        root, self._local_root = self._local_root, None
         try:
-            self._local_root.on_disconnect(self)
+            try:
+                self._channel.close()
+            finally:
+                # the service's hook runs once: not again when the connection has been cleaned up already (the
+                # peer's close served while close() was under way), and also when closing the channel failed
+                if root is not None:
+                    root.on_disconnect(self)
         finally:
-            # whatever the service's hook does (it is user code and may raise), the connection lets go of
-            # everything it held: a closed connection is never cleaned up a second time
+            # whatever closing the channel and the service's hook do (both may raise), the connection lets go
+            # of everything it held; doing so a second time is harmless
             self._request_callbacks.clear()
             self._local_objects.clear()
             self._proxy_cache.clear()
             self._netref_classes_cache.clear()
             self._last_traceback = None
             self._remote_root = None
-            self._local_root = None
             # self._seqcounter = None
             # self._config.clear()
-            del self._HANDLERS
+            self.__dict__.pop("_HANDLERS", None)
 
     def close(self):  # IO
         """closes the connection, releasing all held resources"""
